@@ -666,6 +666,7 @@ struct SigObj
   void* p; // one of the six types
   bool everFwd = false;
   int lvl = 0; // forwarding level (recursion guard of the op language)
+  void* up = nullptr; // trackable flavours: a private upstream signal holding this->make_slot() (see attach_up)
   bool owned = false; // a functor family owns the object (ownG); the name is only an alias
   int name = -1;
   std::weak_ptr<OwnedSig> owner;
@@ -708,6 +709,71 @@ auto with_sig(SigObj& g, Fn fn)
 // ------------------------------------------------------------------------------------------------
 // interpreter
 // ------------------------------------------------------------------------------------------------
+// Variation without a model counterpart ("last will"): every trackable_signal object gets a private upstream signal
+// that holds its make_slot() forwarder, and the destructor of every object owned by a functor emits the upstream signals of
+// the signal objects that are being destroyed at that moment.  The forwarder must already be disconnected then (the
+// trackable part of a trackable_signal dies before its slot list), so the emission reaches nothing.
+static thread_local std::vector<void*> g_dying_ups; // (SigV* or SigI*, tagged by the low bit of the vector below)
+static thread_local std::vector<bool> g_dying_void;
+inline void emit_dying_ups()
+{
+  for (std::size_t i = 0; i < g_dying_ups.size(); ++i)
+  {
+    if (g_dying_void[i])
+      static_cast<sigc::signal<void(int)>*>(g_dying_ups[i])->emit(0);
+    else
+      static_cast<sigc::signal<int(int)>*>(g_dying_ups[i])->emit(0);
+  }
+}
+inline void attach_up(SigObj* g)
+{
+  if (!fl_trackable(g->fl))
+    return;
+  if (fl_void(g->fl))
+  {
+    auto up = new sigc::signal<void(int)>;
+    with_sig(*g, [up](auto& s) {
+      if constexpr (std::is_same<typename std::remove_reference_t<decltype(s)>::slot_type, sigc::slot<void(int)>>::value)
+        up->connect(s.make_slot());
+      return 0;
+    });
+    g->up = up;
+  }
+  else
+  {
+    auto up = new sigc::signal<int(int)>;
+    with_sig(*g, [up](auto& s) {
+      if constexpr (std::is_same<typename std::remove_reference_t<decltype(s)>::slot_type, sigc::slot<int(int)>>::value)
+        up->connect(s.make_slot());
+      return 0;
+    });
+    g->up = up;
+  }
+}
+// destroys the signal object of `g` (not the SigObj record) with its upstream signal announced as dying
+inline void destroy_signal_object(SigObj* g)
+{
+  if (g->up)
+  {
+    g_dying_ups.push_back(g->up);
+    g_dying_void.push_back(fl_void(g->fl));
+  }
+  with_sig(*g, [](auto& s) {
+    delete &s;
+    return 0;
+  });
+  if (g->up)
+  {
+    g_dying_ups.pop_back();
+    g_dying_void.pop_back();
+    if (fl_void(g->fl))
+      delete static_cast<sigc::signal<void(int)>*>(g->up);
+    else
+      delete static_cast<sigc::signal<int(int)>*>(g->up);
+    g->up = nullptr;
+  }
+}
+
 struct Interp
 {
   std::map<int, Trk*> T;
@@ -879,7 +945,10 @@ struct Interp
       if (!t)
         return 1;
       T.erase(ti); // the name is released: the functor copies own the object now
-      std::shared_ptr<Trk> sp(t);
+      std::shared_ptr<Trk> sp(t, [](Trk* q) {
+        emit_dying_ups(); // "last will": see attach_up
+        delete q;
+      });
       if constexpr (isV)
         dst = SlotV(FOwnTV(fid, sp));
       else
@@ -894,7 +963,10 @@ struct Interp
       if (!kc)
         return 1;
       K.erase(ki);
-      std::shared_ptr<sigc::scoped_connection> sp(kc);
+      std::shared_ptr<sigc::scoped_connection> sp(kc, [](sigc::scoped_connection* q) {
+        emit_dying_ups();
+        delete q;
+      });
       if constexpr (isV)
         dst = SlotV(FOwnKV(fid, sp));
       else
@@ -921,10 +993,8 @@ struct Interp
                                                  auto it = in->G.find(so->name);
                                                  if (it != in->G.end() && it->second == so)
                                                    in->G.erase(it);
-                                                 with_sig(*so, [](auto& sg) {
-                                                   delete &sg;
-                                                   return 0;
-                                                 });
+                                                 emit_dying_ups();
+                                                 destroy_signal_object(so);
                                                  delete so;
                                                }});
       g->owner = sp;
@@ -1083,10 +1153,7 @@ struct Interp
 
   void del_sig(SigObj* g)
   {
-    with_sig(*g, [](auto& s) {
-      delete &s;
-      return 0;
-    });
+    destroy_signal_object(g);
     delete g;
   }
 
@@ -1391,6 +1458,7 @@ struct Interp
       if (get(G, i))
         return "exists";
       G[i] = new_sig(fl);
+      attach_up(G[i]);
       G[i]->lvl = i;
       return "ok";
     }
@@ -1411,6 +1479,7 @@ struct Interp
         return cp ? new Ty(s) : new Ty(std::move(s));
       });
       G[j] = g;
+      attach_up(g);
       return "ok";
     }
     if ((op == "asgG" || op == "masgG") && N(2))
